@@ -75,6 +75,13 @@ def cacheDispatch (ws : List String) : List String :=
         let r := (cacheAccRun L ps).merge (cacheAccRun L qs)
         [s!"{r.n} | " ++ joinNat r.value]
       | _, _ => ["bad-op"]
+    | some L, [_, ps, qs, rs] =>
+      -- merge, then keep accumulating into the merged cache
+      match ps.mapM parsePair, qs.mapM parsePair, rs.mapM parsePair with
+      | some ps, some qs, some rs =>
+        let r := rs.foldl (fun s p => s.push p.1 p.2) ((cacheAccRun L ps).merge (cacheAccRun L qs))
+        [s!"{r.n} | " ++ joinNat r.value]
+      | _, _, _ => ["bad-op"]
     | _, _ => ["bad-op"]
   | "cache.max" :: L :: tmo :: rest =>
     match L.toNat?, splitBars rest with
@@ -93,6 +100,12 @@ def cacheDispatch (ws : List String) : List String :=
         let r := (cacheMaxRun L none es).merge (cacheMaxRun L none fs)
         [s!"{r.n} | " ++ " ".intercalate (r.keys.map toString)]
       | _, _ => ["bad-op"]
+    | some L, [_, es, fs, gs] =>
+      match es.mapM parseTriple, fs.mapM parseTriple, gs.mapM parseTriple with
+      | some es, some fs, some gs =>
+        let r := gs.foldl (fun s e => s.push e.1 e.2.1 e.2.2) ((cacheMaxRun L none es).merge (cacheMaxRun L none fs))
+        [s!"{r.n} | " ++ " ".intercalate (r.keys.map toString)]
+      | _, _, _ => ["bad-op"]
     | _, _ => ["bad-op"]
   | _ => ["bad-op"]
 
